@@ -1,7 +1,7 @@
 (* C03 -- GC never changes what any key reads (no loss, no resurrection).
    Property theorems only; proofs live in proofs/GcView.v. *)
 From Coq Require Import NArith ZArith List Bool String.
-From GB Require Import Consts Words Hash Compress Bucket BucketOpen Gc CheckL2 RefMap Refine Restart2 Restart4 GcView GcMerge.
+From GB Require Import Consts Words Hash Compress Bucket BucketOpen Gc CheckL2 RefMap Refine Restart2 Restart4 Restart5 GcView GcMerge GcX1 GcX5 GcX6.
 Import ListNotations.
 Open Scope N_scope.
 
@@ -75,6 +75,63 @@ Proof.
   f_equal. exact (run_refines lc K Hinj ops b' m sops HR' Hs Hok).
 Qed.
 Print Assumptions C03_gc_then_history.
+
+(* (4) A RESTART AFTER GC.  A pass re-establishes the WHOLE restart invariant of C02 (XInv: per-file layout, every
+   file covered by its hint splits, the tree equal to the replay of the record log, tree id below the newest dumped
+   hint), together with two further invariants of histories -- a slot of negative version points at the last record
+   of its hash (NL) and no record has version 0 (NZ) -- and "no record past DataFileMax" (FMok).  Hence C02_restart
+   applies to the state a pass leaves: whatever index files are removed, the rebuilt index makes every key read what
+   it read before the pass; no older value outside or inside the range can come back to life.  The proof
+   (proofs/GcX1..GcX5.v) reads the update log positionally: after the pass the record a slot points at is still
+   the record of its hash with the greatest (file, offset) position, forgotten tombstones that must survive
+   (begin > 0) do survive in the written region, and the hint buffers of every written file describe exactly the
+   records below its writing head. *)
+Theorem C03_gc_reestablishes_restart_invariant : forall (cf : cfg) (hf : bytes -> N) (K : list bytes),
+  (forall k1 k2, In k1 K -> In k2 K -> hf k1 = hf k2 -> k1 = k2) -> 0 < c_splitcap cf ->
+  forall b m begin_ end_,
+  Rel hf K b m -> XInv hf K b -> FMok cf b -> NLZ hf b -> MDok b -> (begin_ <= end_ < b_head b)%nat ->
+  let b' := fst (gc_pass cf hf b begin_ end_ false) in
+  Rel hf K b' m /\ XInv hf K b' /\ FMok cf b' /\ NLZ hf b' /\ MDok b' /\ b_head b' = b_head b.
+Proof. exact gc_pass_xinv. Qed.
+Print Assumptions C03_gc_reestablishes_restart_invariant.
+
+(* (5) WHOLE HISTORIES WITH GC AND RESTARTS ANYWHERE: for ALL configurations with check_vhash off, ALL collision-free
+   key sets and ALL histories of any length mixing client operations (set / delete / incr / get / meta-get / flush /
+   hint dump), clean restarts (each with its own arbitrary subset of index files removed) and GC passes (any range,
+   with or without hint merge) at ANY positions: every reply equals the reference map's reply; a pass never changes
+   the map, a restart replaces it by a view of itself (live entries identical, tombstones possibly forgotten).
+   [ready] is the side condition on the GC requests: each meets a state in which its range lies below the head
+   file, no record extends past DataFileMax and some hint file has been written since the store was created (true
+   after any restart or hint dump of a non-empty store); C17_range_sound gives the first for ranges resolved by the
+   range check. *)
+Theorem C03_histories_with_gc_and_restarts : forall (lc : l2cfg) (K : list bytes),
+  (forall k1 k2, In k1 K -> In k2 K -> forced_hash (l_forced lc) k1 = forced_hash (l_forced lc) k2 -> k1 = k2) ->
+  0 < c_splitcap (l_cfg lc) -> c_checkvhash (l_cfg lc) = false ->
+  forall ops, Forall (op_valid3 K) ops -> ready lc bucket0 ops -> spec_ok3 lc K [] ops (model_run lc bucket0 ops).
+Proof.
+  intros lc K Hinj Hcap Hcv ops Hv Hr.
+  exact (full_history lc K Hinj Hcap Hcv ops bucket0 [] (rinv2_init lc K Hcap Hcv) (nlz_init lc) Hv Hr).
+Qed.
+Print Assumptions C03_histories_with_gc_and_restarts.
+
+(* non-vacuity of (5): overwrites and a delete over three 512-byte files, hint dump, GC of files 0..1 (in-place rewrite
+   and draining), restart with the tree and a hint file removed, a write, GC with merge, restart: [ready] holds
+   (computed), every operation is valid, and the replies are those of a plain map *)
+Definition ex5_lc : l2cfg := mkL2 (mkCfg 512 4096 16 false 3 false 1) [] 0.
+Definition ex5_K : list bytes := [unhex "6b31"; unhex "6b32"; unhex "6b33"; unhex "6b34"].
+Definition ex5_z : zinfo := mkZ true 0 0.
+Definition ex5_ops : list l2op :=
+  [OSet "6b31" "6161" 0 0 1 ex5_z; OSet "6b32" "6262" 0 0 2 ex5_z; OSet "6b31" "6363" 0 0 3 ex5_z; OSet "6b33" "6464" 0 0 4 ex5_z;
+   ODel "6b32"; OSet "6b34" "6565" 0 0 5 ex5_z; OFlush; OHintDump;
+   OGc 0 1 false; OGet "6b31"; OGet "6b32"; ORestart (mkRm true [(0, 0)]%nat false); OGet "6b31"; OGet "6b32"; OMeta "6b33";
+   OSet "6b32" "6666" 0 0 6 ex5_z; OFlush; OGc 0 0 true; ORestart rm_none; OGet "6b31"; OGet "6b32"; OGet "6b34"].
+Example C03_history_nonvacuous :
+  ready ex5_lc bucket0 ex5_ops /\
+  model_run ex5_lc bucket0 ex5_ops =
+    [PStored; PStored; PStored; PStored; PDeleted; PStored; POk; POk;
+     POk; PHit (unhex "6363") 0; PMiss; POk; PHit (unhex "6363") 0; PMiss; PMeta 1 (vhash (unhex "6464")) 0 2;
+     PStored; POk; POk; POk; PHit (unhex "6363") 0; PHit (unhex "6666") 0; PHit (unhex "6565") 0].
+Proof. split; [apply ready_b_ok; vm_compute; reflexivity|vm_compute; reflexivity]. Qed.
 
 (* non-vacuity: three 512-byte files with a superseded value, a delete and live keys; GC over [0,1] rewrites file 0
    in place and drains file 1 into it; every key reads as before *)
